@@ -269,7 +269,7 @@ func (eval Evaluator[T]) EvaluatePolynomialVectorFromPowerBasis(targetLevel int,
 	// Retrieve the degree of the highest degree non-zero coefficient
 	// TODO: optimize for nil/zero coefficients
 	minimumDegreeNonZeroCoefficient := len(pol.Value[0].Coeffs) - 1
-	if even && !odd {
+	if even && !odd && minimumDegreeNonZeroCoefficient > 0 {
 		minimumDegreeNonZeroCoefficient--
 	}
 
